@@ -31,6 +31,9 @@ TYPE_RULES = [
     ("union-duplicate-case", True, "[int, string, int]", ""),
     ("union-duplicate-case-alias", True, "[int, HIntAlias]", ""),
     ("union-nested", True, "[int, [string, float]]", ""),
+    ("union-nested-in-optional", True, "[null, [int, float]]", ""),
+    ("optional-nested-in-optional", True, "[null, [null, int]]", ""),
+    ("union-nested-in-optional-expanded", True, "[null, !union {a: int, b: float}]", ""),
     ("union-duplicate-tag", True, "!union {a: int, b: string, a: float}", ""),
     ("union-bad-tag-case", True, "!union {Bad: int, good: string}", ""),
     ("union-untaggable-case", True, "[int*, string]", ""),
